@@ -16,7 +16,8 @@ reg("C04", "accelerated code paths vs plain ones",
          "coefficients, nsect=1; anisotropic/rotated or multi-sector ball searches differ from the scan by construction and are "
          "recorded under C06) - on targets whose nmaxi Euclidean-nearest samples are all admissible (precondition evaluated by the "
          "harness, ties wider than the library's own tie-breaking perturbation skipped). calcul: KrigingCalcul primal/dual/Bayes/collocated/xvalid vs kriging()/kribayes() and "
-         "vs a long-double solve of the same matrices. Tolerance 1e3*eps*kappa*scale (relative above the natural magnitude), kappa>1e9 skipped as illcond (1e6 in the calcul part, whose explicit-inverse algebra loses eps*kappa^2). distinct = distinct "
+         "vs a long-double solve of the same matrices; every form (incl. Bayesian posterior mean/covariance, collocated, xvalid) is also "
+         "re-fed on the live object: setData(new) -> re-query vs the reference for the new data -> setData(old) -> re-query. Tolerance 1e3*eps*kappa*scale (relative above the natural magnitude), kappa>1e9 skipped as illcond (1e6 in the calcul part, whose explicit-inverse algebra loses eps*kappa^2). distinct = distinct "
          "(pair, ndim, nvar, structure set, drift, heterotopy, selection, option) signatures with a non-skipped evaluation.",
     level="exploration",
     require=dict(distinct=1000,
@@ -24,12 +25,12 @@ reg("C04", "accelerated code paths vs plain ones",
                                      "xv-estim": 1500, "xvm-estim": 1500, "b1-estim": 1200, "b1-var-shift": 1000,
                                      "mig-ball": 5000, "mig-plain-vs-brute": 10000, "nb-select": 600, "nb-kriging": 1000,
                                      "kc-primal-estim-ref": 250, "kc-primal-estim-std": 250, "kc-dual-estim-ref": 250,
-                                     "kc-bayes-irf0-estim-ref": 60, "kc-primal-skmean-estim-ref": 50, "kc-colcok-estim-ref": 50, "kc-xvalid-estim-ref": 80},
+                                     "kc-bayes-irf0-estim-ref": 60, "kc-primal-skmean-estim-ref": 50, "kc-primal-refeed-estim": 500, "kc-dual-refeed-estim": 500, "kc-bayes-irf0-refeed-postmean": 200, "kc-bayes-irf0-refeed-estim": 200, "kc-colcok-refeed-estim": 150, "kc-xvalid-refeed-estim": 150, "kc-colcok-estim-ref": 50, "kc-xvalid-estim-ref": 80},
                               thorough={"covopt-rect": 15000, "covopt-sym": 11000, "covopt-after-empty": 11000, "covplain-after-optim": 15000, "covplain-after-empty-optim": 9000, "um-estim": 18000, "ru-estim": 18000,
                                         "xv-estim": 22000, "xvm-estim": 22000, "b1-estim": 18000, "b1-var-shift": 14000,
                                         "mig-ball": 80000, "mig-plain-vs-brute": 160000, "nb-select": 10000, "nb-kriging": 16000,
                                         "kc-primal-estim-ref": 4000, "kc-primal-estim-std": 4000, "kc-dual-estim-ref": 4000,
-                                        "kc-bayes-irf0-estim-ref": 1000, "kc-primal-skmean-estim-ref": 1000, "kc-colcok-estim-ref": 800, "kc-xvalid-estim-ref": 1000})),
+                                        "kc-bayes-irf0-estim-ref": 1000, "kc-primal-skmean-estim-ref": 1000, "kc-primal-refeed-estim": 8000, "kc-dual-refeed-estim": 8000, "kc-bayes-irf0-refeed-postmean": 3000, "kc-bayes-irf0-refeed-estim": 3000, "kc-colcok-refeed-estim": 2500, "kc-xvalid-refeed-estim": 2500, "kc-colcok-estim-ref": 800, "kc-xvalid-estim-ref": 1000})),
     assumptions=["Model::evalCovMatrix / evalCovMatrixSymmetric on a Model that never served an optimised request is the plain pairwise reference",
                  "condition numbers come from a long-double LU of matrices assembled with the library's own covariance/drift builders (used for tolerance scaling only)",
                  "Euclidean nearest-neighbour precondition and migrate classification are computed by brute force in the harness"])
